@@ -209,7 +209,7 @@ func c10(tier string) int {
 	}
 	for _, c := range []string{"accepted->200", "no-valid-signature->403", "unknown-log->404", "old-size-invalid->400", "stale->409", "root-mismatch->409", "invalid-proof->422", "malformed->400"} {
 		if run.HistGet("expected_answers", c) == 0 {
-			ev.Internal("vacuous: answer class %s never exercised", c)
+			run.Vacuous("answer class %s never exercised", c)
 		}
 	}
 	run.Set("states", states)
